@@ -401,7 +401,6 @@ func checkC02(r *core.Run) {
 	ruleL1(r)
 	ruleL2(r)
 	ruleL2Couple(r)
-	runPositives(r, "L1", "L1-rec")
 }
 
 func fieldNameT(T types.Type, i int) string {
